@@ -104,7 +104,8 @@ def refine_steps(ctx, cfg, d, field, u0s, t0, hs, sigp="step", with_bw=False):
     state = solver.init(jnp.asarray(t0), prior, damp=cfg.damp)
     t = F(t0)
     case = case_of(cfg, field, u0s, t0, hs)
-    check_init(ctx, cfg, stepper, prior, state, t, case, sigp)
+    if check_init(ctx, cfg, stepper, prior, state, t, case, sigp) is False:
+        return objs
     for i, h in enumerate(hs):
         new = solver.step(state, dt=jnp.asarray(h), damp=cfg.damp)
         s0 = sm.state_slices(cfg, state)
@@ -180,6 +181,12 @@ def check_init(ctx, cfg, stepper, prior, state, t, case, sigp):
     ns = sm.normal_slices(cfg.fact, prior.init)
     ms = [{"mean": m, "cov": C, "bw": sm.ident_pcond(n)} for m, C in ns]
     mahas = None
+    import jax
+
+    aux_leaves = [np.asarray(x, dtype=np.float64) for x in jax.tree_util.tree_leaves(state.auxiliary) if np.asarray(x).dtype.kind == "f"]
+    if not sm.state_is_finite(state) or not all(np.all(np.isfinite(a)) for a in aux_leaves):
+        ctx.violation(f"{sigp}:init:nonfinite:{cfg.fact}:{cfg.solver}", "solver.init returned non-finite numbers (state or calibration bookkeeping) for a configuration whose exact result is finite", dict(case, step="init"))
+        return False
     if cfg.constraint_init:
         pv = [np.array([st["cov"][a, a] for a in range(n)], dtype=object) for st in ms]
         try:
